@@ -662,6 +662,11 @@ func createConnHandler(
 				ctx = metadata.NewOutgoingContext(ctx, md)
 			}
 
+			// The back-end call is aborted when the client's stream breaks.
+			ctx, cancel := context.WithCancel(ctx)
+			defer cancel()
+			recvErr := make(chan error, 1)
+
 			clientStream, err := cc.NewStream(ctx, sd, method)
 			if err != nil {
 				return err
@@ -681,6 +686,13 @@ func createConnHandler(
 							if err == io.EOF {
 								// Forward the client's half-close.
 								clientStream.CloseSend() //nolint:errcheck
+							} else {
+								// A broken request stream can neither be
+								// completed nor half-closed: without this
+								// the back-end waits forever and so does
+								// the loop below.
+								recvErr <- err
+								cancel()
 							}
 							return
 						}
@@ -708,6 +720,11 @@ func createConnHandler(
 			}
 
 			if isStreamError(outErr) {
+				select {
+				case err := <-recvErr:
+					return err // the reason the call was aborted
+				default:
+				}
 				return outErr
 			}
 			// The back-end has finished the call: its status is the result,
